@@ -588,3 +588,175 @@ Example crlf_is_rewritten_as_lf :
   write_text (120 :: 10 :: 233 :: nil)%N = (120 :: 10 :: 195 :: 169 :: nil)%N /\
   read_text (255 :: nil)%N = None.
 Proof. vm_compute. repeat split; reflexivity. Qed.
+
+
+(* ================================================================================================================ *)
+(* PROCESS LEVEL (Merge/Ctx.v): the state that could outlive one merge inside one Python process - the libcst CodemodContext
+   (its pending-imports queue scratch["AddImportsVisitor"], modelled concretely on the mini syntax trees by [merge_in]) and
+   a memo of stub texts per path string - threaded through merge_files / merge_tree / main and through HISTORIES of calls
+   interleaved with outside writes.  [share] / [memo] = false is the code as written (a `CodemodContext()` per merge_sources
+   call, the stub file opened on every merge_files call); true are the two ways of keeping state across files that the check
+   probes for on every run (correspondence "context variant" / "history"). *)
+From PV Require Import Merge.Ctx Merge.CtxProofs.
+
+(* a sequence of merges with a context of its own each = the single-file merges: no cross-file state (mini-tree model) *)
+Theorem merge_seq_is_pointwise :
+  forall (v : variant) (l : list (list item * list item)) (cx : ctx),
+       merge_seq v false cx l = map (fun ps : list item * list item => merge v (fst ps) (snd ps)) l.
+Proof. exact merge_seq_fresh. Qed.
+Print Assumptions merge_seq_is_pointwise.
+
+(* what a context carries from one merge to the next: everything it held, then the import requests of this stub; the other
+   outputs of a merge (error, monitors, fresh classes) do not depend on the context *)
+Theorem context_accumulates_import_requests :
+  forall (v : variant) (cx : ctx) (p s : list item),
+       snd (merge_in v cx p s) = cx ++ m_needs (merge v p s) /\
+       m_err (fst (merge_in v cx p s)) = m_err (merge v p s) /\
+       m_leak (fst (merge_in v cx p s)) = m_leak (merge v p s) /\
+       m_clsdecl (fst (merge_in v cx p s)) = m_clsdecl (merge v p s) /\
+       m_fresh (fst (merge_in v cx p s)) = m_fresh (merge v p s) /\
+       m_generic (fst (merge_in v cx p s)) = m_generic (merge v p s) /\
+       m_needs (fst (merge_in v cx p s)) = cx ++ m_needs (merge v p s).
+Proof. intros v cx p s. split; [exact (merge_in_ctx v cx p s)|exact (merge_in_same_flags v cx p s)]. Qed.
+Print Assumptions context_accumulates_import_requests.
+
+(* merge_tree_is_pointwise, part 1: for ANY context type and ANY context-passing merge_sources, merge_tree as written (no
+   context handed down) is Merge/Files.v's merge_tree over the pure function "merge_sources in a fresh context" *)
+Theorem merge_tree_has_no_cross_file_state :
+  forall (B T C : Type) (read : B -> option T) (write : T -> B) (teqb : T -> T -> bool)
+         (fresh : C) (msrcC : C -> T -> T -> option T * C) (cwd : loc) (tree : node B) (fixed : bool)
+         (mm : list (pth * T)) (top P : pth) (bk : option name),
+       tc_st B T C (merge_tree_c B T C read write teqb fresh msrcC false false fixed cwd tree nil mm top P bk) =
+       merge_tree B T read write teqb (msrc_fresh T C fresh msrcC) fixed cwd tree top P bk.
+Proof. exact merge_tree_c_is_merge_tree. Qed.
+Print Assumptions merge_tree_has_no_cross_file_state.
+
+(* merge_tree_is_pointwise, part 2: the files written, the changed list and the error list are those of merge_files run alone
+   on the ORIGINAL file system with a context of its own (jo nil j); files without stub are untouched (jo = JSkip writes
+   nothing: merge_tree_no_stub_skipped); hypotheses as for merge_tree_is_map, both necessary *)
+Theorem merge_tree_is_pointwise :
+  forall (B T C : Type) (read : B -> option T) (write : T -> B) (teqb : T -> T -> bool)
+         (fresh : C) (msrcC : C -> T -> T -> option T * C) (cwd : loc) (tree : node B) (fixed : bool)
+         (mm : list (pth * T)) (top P : pth) (bk : option name),
+       let js := jobs B fixed cwd tree top P in
+       let r :=
+         tc_st B T C (merge_tree_c B T C read write teqb fresh msrcC false false fixed cwd tree nil mm top P bk) in
+       indep B T read write teqb (msrc_fresh T C fresh msrcC) cwd tree bk nil js ->
+       no_raise B T read teqb (msrc_fresh T C fresh msrcC) cwd tree bk nil js ->
+       t_ov B r = flat_map (jwrites B T read write teqb (msrc_fresh T C fresh msrcC) cwd tree bk nil) (rev js) /\
+       t_changed B r =
+       map fst
+         (filter
+            (fun j : pth * pth => is_changed B T (jo B T read teqb (msrc_fresh T C fresh msrcC) cwd tree bk nil j))
+            js) /\
+       t_errors B r =
+       map fst
+         (filter (fun j : pth * pth => is_err B T (jo B T read teqb (msrc_fresh T C fresh msrcC) cwd tree bk nil j))
+            js) /\
+       t_raised B r = false /\
+       tc_memo B T C (merge_tree_c B T C read write teqb fresh msrcC false false fixed cwd tree nil mm top P bk) = mm.
+Proof. exact merge_tree_pointwise. Qed.
+Print Assumptions merge_tree_is_pointwise.
+
+(* the lifting: with the mini-tree model of the context plugged in, merge_tree as written is merge_tree over [msrc_model v] - the
+   premise of tree_files_are_own_merges / tree_existing_kept / tree_inserted_from_stub_partial / tree_no_bare_any_never_partial,
+   which therefore hold for it pointwise, file by file *)
+Theorem merge_tree_with_context_model_lifts :
+  forall (v : variant) (teqb : list item -> list item -> bool) (cwd : loc) (tree : node (list item)) (fixed : bool)
+         (mm : list (pth * list item)) (top P : pth) (bk : option name),
+       tc_st (list item) (list item) ctx
+         (merge_tree_c (list item) (list item) ctx Some (fun t : list item => t) teqb ctx0 (msrcC_model v)
+            false false fixed cwd tree nil mm top P bk) =
+       merge_tree (list item) (list item) Some (fun t : list item => t) teqb (msrc_model v) fixed cwd tree top P bk.
+Proof. exact merge_tree_ctx_model. Qed.
+Print Assumptions merge_tree_with_context_model_lifts.
+
+(* REFUTED with one context for the whole tree (share = true; the seeded change C20-shared-codemod-context-leaks-imports):
+   a.py's stub imports Fraction, b.py's stub imports nothing; b.py still receives `from fractions import Fraction`, which its
+   own stub never requested, and no longer erases to the original *)
+Theorem merge_seq_shared_context_refuted :
+  map m_out (merge_seq Fixed false ctx0 w_seq) = m_out (merge Fixed wa_p wa_s) :: wb_out_fresh :: nil /\
+  map m_out (merge_seq Fixed true ctx0 w_seq) = m_out (merge Fixed wa_p wa_s) :: wb_out_shared :: nil /\
+  m_needs (merge Fixed wb_p wb_s) = nil /\
+  imports_own (m_needs (merge Fixed wb_p wb_s)) wb_out_fresh = true /\
+  imports_own (m_needs (merge Fixed wb_p wb_s)) wb_out_shared = false /\
+  erase wb_out_fresh = erase wb_p /\ erase wb_out_shared <> erase wb_p.
+Proof. exact shared_context_witness. Qed.
+Print Assumptions merge_seq_shared_context_refuted.
+
+Theorem merge_tree_shared_context_refuted :
+  st_read (list item) s_tree (t_ov (list item) (tc_st (list item) (list item) ctx (s_run false)))
+    (nm_src :: nm_b_py :: nil) = RFile wb_out_fresh /\
+  st_read (list item) s_tree (t_ov (list item) (tc_st (list item) (list item) ctx (s_run true)))
+    (nm_src :: nm_b_py :: nil) = RFile wb_out_shared /\
+  msrc_model Fixed wb_p wb_s = Some wb_out_fresh /\
+  st_read (list item) s_tree (t_ov (list item) (tc_st (list item) (list item) ctx (s_run true)))
+    (nm_src :: nm_a_py :: nil) =
+  st_read (list item) s_tree (t_ov (list item) (tc_st (list item) (list item) ctx (s_run false)))
+    (nm_src :: nm_a_py :: nil).
+Proof. exact shared_context_tree_witness. Qed.
+Print Assumptions merge_tree_shared_context_refuted.
+
+(* histories: merge_files / merge_tree / main calls and outside writes in ONE process give, step by step, the outcomes and the
+   file system that a NEW process per operation gives (fresh_history): nothing is remembered between calls *)
+Theorem history_is_stateless :
+  forall (B T C : Type) (read : B -> option T) (write : T -> B) (teqb : T -> T -> bool)
+         (fresh : C) (msrcC : C -> T -> T -> option T * C) (cwd : loc) (tree : node B) (fixed : bool)
+         (ops : list (op B)) (h : hstate B T),
+       let '(h', xs) := run_history B T C read write teqb fresh msrcC false false fixed cwd tree h ops in
+       (h_ov B T h', xs) = fresh_history B T C read write teqb fresh msrcC fixed cwd tree (h_ov B T h) ops.
+Proof. exact run_history_plain. Qed.
+Print Assumptions history_is_stateless.
+
+(* REFUTED with the stub text remembered per path string (memo = true; the seeded change C20-stub-read-memoised-per-path):
+   merge, put the source back, rewrite the stub (49 -> 50), merge again: the OLD stub's text is inserted *)
+Theorem history_memoised_stub_refuted :
+  (st_read (list N) m_tree (h_ov (list N) (list N) (fst (m_run false))) (nm_d :: nm_a_py :: nil) =
+   RFile (50 :: 120 :: 10 :: nil) /\
+   st_read (list N) m_tree (h_ov (list N) (list N) (fst (m_run true))) (nm_d :: nm_a_py :: nil) =
+   RFile (49 :: 120 :: 10 :: nil) /\
+   st_read (list N) m_tree (h_ov (list N) (list N) (fst (m_run true))) (nm_d :: stub_name nm_a_py :: nil) =
+   RFile (50 :: nil) /\
+   fst (fresh_history (list N) (list N) unit read_text write_text text_eqb tt toy_msrcC true nil m_tree nil m_ops) =
+   h_ov (list N) (list N) (fst (m_run false)))%N.
+Proof. exact memo_witness. Qed.
+Print Assumptions history_memoised_stub_refuted.
+
+(* main(): without -i/--in-place no file is ever written (PRINT and DIFF), whatever state the process carries *)
+Theorem main_without_in_place_never_writes :
+  forall (B T C : Type) (read : B -> option T) (write : T -> B) (teqb : T -> T -> bool)
+         (fresh : C) (msrcC : C -> T -> T -> option T * C) (cwd : loc) (tree : node B) (share memo fixed : bool)
+         (h : hstate B T) (df : bool) (bk : option name) (py pyi : pth),
+       h_ov B T
+         (fst (h_step B T C read write teqb fresh msrcC share memo fixed cwd tree h (OpMain false df bk py pyi))) =
+       h_ov B T h.
+Proof. exact main_no_inplace_never_writes. Qed.
+Print Assumptions main_without_in_place_never_writes.
+
+(* main(): a non-empty -b without -i is a usage error: nothing is read, nothing is written, nothing is remembered *)
+Theorem main_backup_requires_in_place :
+  forall (B T C : Type) (read : B -> option T) (write : T -> B) (teqb : T -> T -> bool)
+         (fresh : C) (msrcC : C -> T -> T -> option T * C) (cwd : loc) (tree : node B) (share memo fixed : bool)
+         (h : hstate B T) (df : bool) (bk : option name) (n : name) (py pyi : pth),
+       truthy bk = Some n ->
+       h_step B T C read write teqb fresh msrcC share memo fixed cwd tree h (OpMain false df bk py pyi) = (h, OUsage).
+Proof. exact main_backup_needs_inplace. Qed.
+Print Assumptions main_backup_requires_in_place.
+
+(* non-vacuity: on the two-file witness tree the hypotheses of merge_tree_is_pointwise hold and both files change *)
+Example pointwise_hypotheses_hold :
+  let js := jobs (list item) true nil s_tree w_top w_P in
+  indep _ _ Some (fun t : list item => t) it_eqb (msrc_fresh _ _ ctx0 (msrcC_model Fixed)) nil s_tree None nil js /\
+  no_raise _ _ Some it_eqb (msrc_fresh _ _ ctx0 (msrcC_model Fixed)) nil s_tree None nil js /\
+  length js = 2%nat /\
+  length (t_changed _ (tc_st _ _ _ (s_run false))) = 2%nat.
+Proof.
+  cbv zeta. remember (jobs (list item) true nil s_tree w_top w_P) as js eqn:E. vm_compute in E. subst js.
+  split.
+  { cbn [indep]. split; [|split; [|exact I]].
+    - intros j l Hj Hl. destruct Hj as [<-|[]]. vm_compute in Hl. destruct Hl as [<-|[]]; split; discriminate.
+    - intros j l []. }
+  split.
+  { intros j Hj. destruct Hj as [<-|[<-|[]]]; vm_compute; reflexivity. }
+  split; vm_compute; reflexivity.
+Qed.
